@@ -29,7 +29,8 @@ type HandlerSpec struct {
 	FailAt int    `json:"fail_at"` // offset into the deleted range of the height at which this handler misbehaves (mod range length); -1 never
 	// Err selects what an "error" handler returns: "" = a plain error; ds_notfound / hdr_notfound = an error wrapping
 	// datastore.ErrNotFound / header.ErrNotFound (a handler that cleans up its own records may well pass that on);
-	// ctx_canceled = context.Canceled.
+	// ctx_canceled = context.Canceled. For a "panic" handler it selects the panic value: "" = a string, p_int, p_struct,
+	// p_error, p_runtime (a runtime error).
 	Err string `json:"err,omitempty"`
 }
 
@@ -82,6 +83,8 @@ func genDel(t *rapid.T, faulty bool) DelScenario {
 			h.FailAt = rapid.IntRange(0, 12).Draw(t, "hfailat")
 			if h.Mode == "error" {
 				h.Err = rapid.SampledFrom([]string{"", "", "ds_notfound", "hdr_notfound", "ctx_canceled"}).Draw(t, "herr")
+			} else {
+				h.Err = rapid.SampledFrom([]string{"", "", "p_int", "p_struct", "p_error", "p_runtime"}).Draw(t, "hpanic")
 			}
 		}
 		s.Handlers = append(s.Handlers, h)
@@ -275,6 +278,17 @@ func runDel(t *testing.T, s DelScenario) (r08, r14 Result) {
 				}
 				if misbehave {
 					if hs.Mode == "panic" {
+						switch hs.Err { // what the handler panics with
+						case "p_int":
+							panic(42)
+						case "p_struct":
+							panic(struct{ H uint64 }{height})
+						case "p_error":
+							panic(fmt.Errorf("handler %d panics at height %d", i, height))
+						case "p_runtime":
+							var m map[uint64]int
+							m[height] = i // assignment to entry in nil map
+						}
 						panic(fmt.Sprintf("handler %d panics at height %d", i, height))
 					}
 					switch hs.Err {
